@@ -20,14 +20,30 @@ def run(ctx, idx):
     # key, or flattened: a number where a list is declared, a list where a name is, then escape as TypeError.
     ctx.rule("C13.g", "In Program.run a raw argument value (`<argument>.value`) goes only to a parameter's clean() or into an isinstance test; it is never iterated, flattened or used as a dictionary key before it has been cleaned (a raw TypeError there is outside every wrapper).")
     pr_ = A.program_run
-    node_ = getattr(pr_, "node_orig", None) or pr_.node
+    # Program.run and the Program methods it hands the work to (a per-command helper split off the pre-pass is still outside
+    # Command.run's wrapper)
+    fns_ = [pr_] + [f_ for f_ in K.helper_closure(idx, pr_) if f_ is not pr_ and getattr(f_, "cls", None) is pr_.cls]
+    grew_ = True
+    while grew_:  # private helpers the normaliser inlined are not in the call graph: followed by name, through `self.<helper>(...)`
+        grew_ = False
+        called_ = {c_.func.attr for g_ in fns_ for c_ in ast.walk(getattr(g_, "node_orig", None) or g_.node) if isinstance(c_, ast.Call) and isinstance(c_.func, ast.Attribute)}
+        for f_ in idx.funcs:
+            if getattr(f_, "absorbed", False) and getattr(f_, "cls", None) is pr_.cls and f_.name in called_ and f_ not in fns_:
+                fns_.append(f_)
+                grew_ = True
+    nodes_ = [getattr(f_, "node_orig", None) or f_.node for f_ in fns_]
     par_ = {}
-    for x_ in ast.walk(node_):
-        for c_ in ast.iter_child_nodes(x_):
-            par_[id(c_)] = x_
-    argvars = {t_.id for lp_ in ast.walk(node_) if isinstance(lp_, (ast.For, ast.comprehension)) and K.src(lp_.iter).endswith(".arguments") for t_ in ast.walk(lp_.target) if isinstance(t_, ast.Name)}
+    for node_ in nodes_:
+        for x_ in ast.walk(node_):
+            for c_ in ast.iter_child_nodes(x_):
+                par_[id(c_)] = x_
+    argvars = {t_.id for node_ in nodes_ for lp_ in ast.walk(node_) if isinstance(lp_, (ast.For, ast.comprehension)) and K.src(lp_.iter).endswith(".arguments") for t_ in ast.walk(lp_.target) if isinstance(t_, ast.Name)}
     n_raw = 0
-    for x_ in ast.walk(node_):
+    seen_ = set()
+    for x_ in [y_ for node_ in nodes_ for y_ in ast.walk(node_)]:
+        if id(x_) in seen_:
+            continue
+        seen_.add(id(x_))
         if not (isinstance(x_, ast.Attribute) and x_.attr == "value" and isinstance(x_.value, ast.Name) and x_.value.id in argvars and isinstance(x_.ctx, ast.Load)):
             continue
         n_raw += 1
@@ -39,6 +55,11 @@ def run(ctx, idx):
             ok_use = True
         if isinstance(up, ast.Assign) and up.value is x_:
             ok_use = True  # stored under a name: the uses of that name are not followed (no verdict from this site)
+        if isinstance(up, ast.Call) and isinstance(up.func, ast.Name) and any(a_ is x_ for a_ in up.args) \
+                and any(isinstance(d_, ast.FunctionDef) and d_.name == up.func.id and d_ is not node_ for node_ in nodes_ for d_ in ast.walk(node_)):
+            ok_use = True  # handed to a function defined inside the method: what that function does with its parameter is not followed (no verdict from this site)
+        if isinstance(up, (ast.List, ast.Tuple)) and isinstance(up.ctx, ast.Load) and isinstance(par_.get(id(up)), ast.Assign):
+            ok_use = True  # put into a list display that is stored under a name: building it cannot raise, its uses are not followed
         ctx.ob("C13.g", "%s::raw-argument-value@%d" % (pr_.key, n_raw), K.rel(pr_), x_.lineno, ok_use,
                "the raw value goes to clean() / an isinstance test" if ok_use else
                "`%s` uses the raw value of an argument before it was cleaned (`%s`): a value of the wrong kind - a number where a list of results is declared, a list where one name is - raises TypeError here, in Program.run's own code, outside Command.run's wrapper" % (K.src(up)[:70] if up is not None else K.src(x_), K.src(x_)))
@@ -254,6 +275,11 @@ def run(ctx, idx):
             raise AnalysisError("C13.e: handler node not found")
         exits = c.find("call", lambda n: n.meta.get("qual") == "sys.exit" and any(n.ast is x for b in h.body for x in ast.walk(b)))
         writes = c.find("call", lambda n: isinstance(n.ast.func, ast.Attribute) and n.ast.func.attr == "write" and "stderr" in K.src(n.ast.func) and ("text_type(%s)" % (h.name or "ex") in K.src(n.ast) or "str(%s)" % (h.name or "ex") in K.src(n.ast)))
+        # click.echo / click.secho write to standard error exactly when err=True is passed (stdout otherwise)
+        writes += c.find("call", lambda n: (n.meta.get("qual") or K.src(n.ast.func)) in ("click.echo", "click.secho", "click.utils.echo", "click.termui.secho")
+                         and any(k.arg == "err" and isinstance(k.value, ast.Constant) and k.value.value is True for k in n.ast.keywords)
+                         and not any(k.arg == "file" for k in n.ast.keywords)
+                         and ("text_type(%s)" % (h.name or "ex") in K.src(n.ast) or "str(%s)" % (h.name or "ex") in K.src(n.ast)))
         if not exits:
             why = "the handler never calls sys.exit"
         elif c.exit in c.reachable(hn[0]):
